@@ -48,11 +48,25 @@ for prop, names in pick.items():
         if f.name in names and not f.witness:
             fams.append(f)
 
+# orderly shut-down after a scenario: whoever is still suspended is stopped from the dispatcher, then every object is
+# terminated and destroyed (TEARDOWN=1); with TEARDOWN=2 the statistics reports are printed first (concrete amounts)
+tear = {'C05': ['waiter-stopped', 'holder-returns-holding'], 'C06': ['resource-2-waiters', 'oq-putters', 'pq-getters'], 'C07': ['pool-3-acquire', 'pool-topup-interrupted'],
+        'C08': ['buffer-put-blocked', 'pq-both-ends', 'pool-leftovers'], 'C09': ['stopped-in-multi', 'restart-after-stop', 'stopped-in-condition'],
+        'C11': ['buffer-get-interrupted'], 'C12': ['oq-duplicates-and-null', 'pq-reprio-cancel'], 'C13': ['cond-three-waiters', 'cond-observe-register-1', 'cond-observe-subscribe-1'],
+        'C14': ['rec-drop-on-stop', 'rec-queues-buffer', 'rec-preempt'], 'C04': ['waitp-both-ends', 'waite-cancelled', 'two-timers-cancel']}
+for prop, names in tear.items():
+    for f in simfam.FAMILIES[prop]:
+        if f.name in names and not f.witness and f.tier == 'quick':
+            fams.append(Family(f.name + '-teardown', f.harness, f.entry, list(f.defs) + ['TEARDOWN=1'], opts=dict(f.opts), tier='quick', witness=False, weight=f.weight + 1, validate=2))
+fams.append(simfam.fam('teardown-with-reports', ['ACQ OPUT HOLD REL OPUT', 'HOLD ACQ OGET HOLD'], REC=1, CONCRETE_D=1, TEARDOWN=2, POOLCAP=2, BUFCAP=2, QCAP=2, w=2))
+fams.append(simfam.fam('teardown-with-reports-blocked', ['ACQ QPUT HOLD QPUT QPUT', 'HOLD ACQ HOLD', 'OGET'], REC=1, CONCRETE_D=1, TEARDOWN=2, POOLCAP=2, BUFCAP=2, QCAP=2, w=3))
+fams.append(simfam.fam('teardown-with-reports', ['ACQ OPUT HOLD REL OPUT', 'HOLD ACQ OGET HOLD'], REC=1, CONCRETE_D=1, TEARDOWN=2, POOLCAP=2, BUFCAP=2, QCAP=2, witness=True, w=2))
+
 c = Check('C10')
 c.run_e1(fams, assumptions=['"valid program": every API call respects the argument conditions its header documents and its own entry asserts state; nothing is assumed about library-internal state',
                             'allocation never fails; stack overflow of the 64 KiB coroutine stacks, -DNASSERT builds and output formatting are outside',
                             'release configuration (-DNDEBUG): cmb_assert_debug compiled out, cmb_assert_release active'],
-         bounds=['event queue 7-17 pending events with 2-17 waiters on the executing/cancelled event; 3-9 (thorough 17) x 3 processes queued on one resource, pool and condition; 1-300 waiters on an ending process; 131-530 pool objects; 1025 samples'])
+         bounds=['event queue 7-17 pending events with 2-17 waiters on the executing/cancelled event; 3-9 (thorough 17) x 3 processes queued on one resource, pool and condition; 1-300 waiters on an ending process; 131-530 pool objects; 1025 samples; orderly shut-down (stop, terminate, destroy; reports for two concrete scenarios) after 27 scenario families'])
 c.finish(functions=['every library function reached by the listed families (see parts)'],
          trusted=['clang-14 IR', 'E1 interpreter: bounds, liveness, initialisation, alignment, signed overflow, shift, division and float->int range checks at every instruction', 'z3 5.1'],
          explanation='memory-safety / UB / abort checking is built into the symbolic executor and applies to every instruction of every explored path')
